@@ -24,6 +24,7 @@ void __real_free(void *);
 #define NTRACK 4096
 static struct { void * p; size_t n; } track[NTRACK];
 static int watching;
+static int expect_zero;	/* 1: blocks of ours must be all zero when freed; 0: must not contain a secret pattern */
 
 /* ---- verdict of the current op ---- */
 static char verdict[512];
@@ -88,7 +89,13 @@ __wrap_free(void * p)
 	if (p != NULL && watching) {
 		for (i = 0; i < NTRACK; i++)
 			if (track[i].p == p) break;
-		if (i < NTRACK) {
+		if (i < NTRACK && !expect_zero) {
+			n = track[i].n;
+			track[i].p = NULL;
+			nfrees_checked++;
+			if (find_pattern(p, n) >= 0)
+				complain(" SECRET-IN-FREED-BLOCK@%ld/%ld", find_pattern(p, n), (long)n);
+		} else if (i < NTRACK) {
 			/* a block of ours: documented as zeroed over its whole size */
 			n = track[i].n;
 			track[i].p = NULL;
@@ -278,12 +285,12 @@ main(void)
 			size_t klen; uint8_t * k = hc_unhex(hc_tok[1], &klen);
 			struct crypto_aes_key * K;
 
-			watching = 1;
+			watching = 1; expect_zero = 1;
 			K = crypto_aes_key_expand(k, klen);
 			if (K != NULL) crypto_aes_key_free(K);
 			watching = 0;
 			__real_free(k);
-			printf("freed%s checked=%d", verdict[0] ? verdict : " zero", nfrees_checked);
+			printf("freed%s | checked=%d", verdict[0] ? verdict : " zero", nfrees_checked);
 		} else if (strcmp(hc_tok[0], "aesctr") == 0 && hc_ntok >= 4) {
 			/* aesctr <key> <nonce> <reinit 0|1> <chunk>... : stream object zero at free */
 			size_t klen, len; uint8_t * k = hc_unhex(hc_tok[1], &klen), * b, * o;
@@ -292,7 +299,7 @@ main(void)
 			struct crypto_aes_key * K;
 			struct crypto_aesctr * S;
 
-			watching = 1;
+			watching = 1; expect_zero = 1;
 			K = crypto_aes_key_expand(k, klen);
 			S = crypto_aesctr_init(K, nonce);
 			for (i = 4; i < hc_ntok; i++) {
@@ -305,7 +312,7 @@ main(void)
 			crypto_aes_key_free(K);
 			watching = 0;
 			__real_free(k);
-			printf("freed%s checked=%d", verdict[0] ? verdict : " zero", nfrees_checked);
+			printf("freed%s | checked=%d", verdict[0] ? verdict : " zero", nfrees_checked);
 		} else if (strcmp(hc_tok[0], "dh") == 0 && hc_ntok == 5) {
 			/* dh <pub|-> <priv32> <blinding32|FAIL> <failat k|0> */
 			size_t plen, blen = 0, ylen = 0; uint8_t * priv = hc_unhex(hc_tok[2], &plen), * bl = NULL, * y = NULL;
@@ -318,7 +325,7 @@ main(void)
 			if (!ent_fail) { limbs_of_be32(bl); sub_be32(priv, bl, diff); limbs_of_be32(diff); }
 			ossl_failat = atol(hc_tok[4]);
 			if (ossl_failat == 0) ossl_failat = -1;
-			watching = 1;
+			watching = 1; expect_zero = 0;
 			if (strcmp(hc_tok[1], "-") == 0)
 				rc = crypto_dh_generate_pub(out, priv);
 			else {
@@ -340,7 +347,7 @@ main(void)
 			fd = mkstemp(tmpl);
 			if (fd < 0 || write(fd, fc, flen) != (ssize_t)flen) { printf("harness-io-error"); HC_END(); continue; }
 			close(fd);
-			watching = 1;
+			watching = 1; expect_zero = 0;
 			rc = aws_readkeys(tmpl, &id, &ks);
 			watching = 0;
 			unlink(tmpl);
